@@ -51,6 +51,11 @@ def check(ctx):
     from .C08 import converter_dict_subclasses
 
     converter_dict_subclasses(ctx)
+    # ---------------- cull hands fuse dependency LISTS that keep multiplicity (a key used twice is listed twice)
+    cu = ctx.model.module("dask/optimization.py").func("cull")
+    dk = find("dependencies_k = M_v", cu)
+    ok = len(dk) == 1 and eqv(dk[0][1]["M_v"], "get_dependencies(dsk, k, as_list=True)")
+    ctx.ob("CNT.cull.dependency-multiplicity", cu, "cull: dependencies_k = get_dependencies(dsk, k, as_list=True)", ok, "" if ok else "a de-duplicated list tells fuse that a task used twice by its only dependent is used once: it is inlined at every use and runs several times under multiprocessing.get")
 
 
 # --------------------------------------------------------------------------- (a)
